@@ -1,8 +1,11 @@
 #!/bin/bash
-# usage: tools/run_all.sh [tier] [seed]   — runs every claimed check and prints one summary line each
+# usage: tools/run_all.sh [tier] [seed] [Cxx ...]  — runs every claimed check (or the listed ones) and prints one summary line each
 TIER=${1:-quick}; SEED=${2:-1}
 cd "$(dirname "$(realpath "$0")")/.."
-for c in $(python3 -c "import json; print(' '.join(x['property_id'] for x in json.load(open('MANIFEST.json'))['checks']))"); do
+shift; shift
+LIST="$*"
+[ -n "$LIST" ] || LIST=$(python3 -c "import json; print(' '.join(x['property_id'] for x in json.load(open('MANIFEST.json'))['checks']))")
+for c in $LIST; do
   t0=$(date +%s)
   out=$(VERIF_SEED=$SEED ./check $c --tier $TIER 2>&1); rc=$?
   echo "$c rc=$rc $(( $(date +%s) - t0 ))s | $(echo "$out" | grep -E "^C[0-9]+ tier" | cut -c1-160)"
